@@ -53,6 +53,7 @@ TraceArchive ==
    /\ LET want == IF ev.mode = "ctor" THEN <<PackDate(R6(ev.a)), PackTime(R6(ev.a))>> ELSE <<ev.a[1], ev.a[2]>> IN
       /\ Check(ev.cd = want[1] /\ ev.ct = want[2] /\ ev.ld = want[1] /\ ev.lt = want[2])
       /\ Check(R6(ev.f) = Unpack(want[1], want[2]))
+      /\ Check(R6(ev.sf) = Unpack(want[1], want[2]))                   \* the streaming reader (local header words) agrees
       /\ Check(ev.mode = "ctor" => R6(ev.f) = Floor2(R6(ev.a)))
    /\ Count(4)
 \* a foreign archive's words are reported exactly, whatever they are
